@@ -1,5 +1,6 @@
+from xeng import progs, progs2, progs3
 from . import _common
 
 
 def run(out):
-    _common.run(out, 'C03', s_props=['C03'])
+    _common.run(out, 'C03', x=[dict(fn=progs3.c03_corpus, name='c03', compile_violation=True), dict(fn=progs.c01_corpus, name='c03_c01', compile_violation=True, compile_only=True)], s_props=['C03'])
